@@ -45,6 +45,7 @@ REGS = (
     "patch_inherited_staticmethod@test",
     "patch_property@test",
     "dup_cleanup@test",
+    "patch_overriding_falsy@test",
 )
 
 FX_SETUP_MENU = (pg.RET, pg.ERROR, pg.KBI)
@@ -138,8 +139,12 @@ def _patched_class(ctx):
             def cm(cls):
                 return ("cm", cls.__name__)
 
+            limit = 5
+
         class Sub(K):
             """Inherits both; has neither in its own namespace."""
+
+            limit = 0  # (its own, overriding the base class's - and falsy)
 
         k = ctx.extra["klass"] = K
         ctx.extra["subklass"] = Sub
@@ -228,6 +233,8 @@ def class_patch_problems(ctx):
     if o is not None and o.level != "orig-level":
         out.append(("patch-restore", "property-backed attribute 'level' is %r after run(), was 'orig-level'" % (o.level,)))
     sub = ctx.extra["subklass"]
+    if vars(sub).get("limit", "<absent>") != 0 or vars(k).get("limit", "<absent>") != 5:
+        out.append(("patch-restore", "the subclass's own attribute limit = 0 (overriding the base class's 5) is %r after run(), the base class's %r" % (vars(sub).get("limit", "<absent>"), vars(k).get("limit", "<absent>"))))
     try:
         got = (sub().sm(), type("SubSub", (sub,), {}).cm())
     except Exception as e:
@@ -362,6 +369,8 @@ def build_actions(regs):
             actions.setdefault(site, []).append(("patch_class", "cm"))
         elif kind == "patch_inherited_staticmethod":
             actions.setdefault(site, []).append(("patch_subclass", "sm"))
+        elif kind == "patch_overriding_falsy":
+            actions.setdefault(site, []).append(("patch_subclass", "limit"))
         elif kind == "patch_property":
             actions.setdefault(site, []).append(("patch_prop",))
         elif kind == "dup_cleanup":
